@@ -1949,7 +1949,14 @@ class FuncGetOutputString(ValueFunc):
 
     def execute(self, args, environment, pos):
         output = args.getOutput("output")
-        return ValueString(output.output.output)
+        text = getattr(output.output, "output", None)
+        if not isinstance(text, str):
+            raise CklRuntimeError(
+                ValueString("ERROR"),
+                "Only a string output holds its text",
+                pos,
+            )
+        return ValueString(text)
 
 
 class FuncGreater(ValueFunc):
